@@ -780,6 +780,16 @@ impl NetcodeServer {
             global_sequence: self.global_sequence,
             current_time: self.current_time,
             token_entries: self.connect_token_entries.iter().filter(|e| e.is_some()).count(),
+            token_entries_digest: {
+                let mut h: u64 = 0xcbf2_9ce4_8422_2325;
+                for e in self.connect_token_entries.iter().flatten() {
+                    for b in e.mac.iter().copied().chain(e.address.to_string().bytes()) {
+                        h ^= b as u64;
+                        h = h.wrapping_mul(0x0000_0100_0000_01b3);
+                    }
+                }
+                h
+            },
         }
     }
 
